@@ -229,6 +229,7 @@ theorem announce_getProc (ex : Exec V) (pid : Nat) (r : Res V) (q : Nat) (p : Pr
 /-! ### the worker-side await registry -/
 
 theorem queryOne_failed (w : Worker V) (a t : Nat) (pt : Proc V) (e : ErrClass)
+    (hv : w.variant.selectWaitsForAnswer = false)
     (hp : w.ex.getProc t = some pt) (hr : pt.result = some (.err e)) :
     (w.queryOne a t).2 = (t, none) ∧ (w.queryOne a t).1.ex = w.ex ∧
     t ∈ (w.queryOne a t).1.awaited ∧
@@ -237,13 +238,32 @@ theorem queryOne_failed (w : Worker V) (a t : Nat) (pt : Proc V) (e : ErrClass)
     unfold Worker.completedValue
     rw [hp]; simp only [hr]
     split <;> simp_all
+  have hnr : w.completedResult t = none := by
+    unfold Worker.completedResult
+    rw [hnc]; simp [hv]
   unfold Worker.queryOne
-  rw [hnc]
+  rw [hnr]
   refine ⟨rfl, rfl, ?_, _, amLookup_insert_self _ _ _, by simp⟩
   simp only []
   split
   · assumption
   · simp
+
+/-- Variant `selectWaitsForAnswer`: a target that has FAILED (and is neither queued nor parked) is answered
+    with its error in the first answer; nothing is registered. -/
+theorem queryOne_failed_waits (w : Worker V) (a t : Nat) (pt : Proc V) (e : ErrClass)
+    (hv : w.variant.selectWaitsForAnswer = true)
+    (hp : w.ex.getProc t = some pt) (hr : pt.result = some (.err e)) (hst : w.ex.status t pt = .failed) :
+    w.queryOne a t = (w, (t, some (.err e))) := by
+  have hnc : w.completedValue t = none := by
+    unfold Worker.completedValue
+    rw [hp]; simp only [hr]
+    split <;> simp_all
+  have hnr : w.completedResult t = some (.err e) := by
+    unfold Worker.completedResult
+    rw [hnc]; simp [hv, hp, hst, hr]
+  unfold Worker.queryOne
+  rw [hnr]
 
 theorem checkOne_lookup_ne (w : Worker V) (pid t : Nat) (h : t ≠ pid) :
     amLookup t (w.checkOne pid).1.awaitersFor = amLookup t w.awaitersFor ∧ (w.checkOne pid).1.ex = w.ex := by
